@@ -289,6 +289,14 @@ func (in *inst) step(c *cmd, light bool) (v []report.Violation) {
 		return // a violating state is not expanded; datasets of a wrong state add nothing
 	}
 
+	in.sweep(c, after, bad)
+	return
+}
+
+// sweep is what follows every transition that left the tables as the model says: all six status
+// datasets are requested and compared with the tables, and every face is exercised.
+func (in *inst) sweep(c *cmd, after snapshot, bad func(string, string, string)) {
+	var derr error
 	// every status dataset lists exactly the current table contents
 	for _, ds := range datasetNames {
 		n := append(append(enc.Name{}, nm("/localhost/nfd")...), nm("/"+ds)...)
@@ -308,7 +316,6 @@ func (in *inst) step(c *cmd, light bool) (v []report.Violation) {
 
 	// no face is left unusable: one Interest through every face (sendPacket, what runSend executes)
 	in.exercise(c, bad)
-	return
 }
 
 func (e expectation) reasonOr(s string) string {
